@@ -101,6 +101,7 @@ def run(ctx):
     for a in ir.assigns:
         if not a.state:
             continue
+        a = q.fold(ir, a)                  # `strobe.eq(cond)`: the condition counts as part of the guard
         ctx.ob('C07.endpoint-gate', 'USBControlEndpoint.%s@%s' % (a.lhs.canon(), role.get(q.state_of(a), '?')), (EP, True) in q.atoms(a), a.loc,
                'every stage-dependent strobe must be gated by the endpoint number: %s' % q.fmt(a))
     for e in fsm.edges:
